@@ -2,6 +2,7 @@ package main
 
 import (
 	"fmt"
+	"go/token"
 	"go/types"
 	"sort"
 	"strings"
@@ -495,3 +496,187 @@ func ruleSandboxBindsLibrary(p *Program, r *Report) {
 	}
 	_ = binds
 }
+
+// S18d: scope threading.  Inside the evaluators of package rel, every interpreter dispatch (Expr.Eval, Pattern.Bind,
+// direct Bind calls of pattern types) made from a function that itself received a scope must be handed a scope that
+// derives from that parameter.  A dispatch given the global EmptyScope instead drops the caller's bindings —
+// including `//`, whereupon PackageExpr.Eval substitutes the full unsafe library (S18b).  A dropped-scope dispatch
+// that sits on a `param == nil` branch is reachable only if some caller can pass nil there; that is decided from the
+// callers' arguments (nil constant or a phi with a nil edge).
+func ruleScopeThreading(p *Program, r *Report) {
+	r.Begin("S18d", "scope threading: in package rel, a function that receives a rel.Scope hands every nested interpreter dispatch (Expr.Eval / Pattern.Bind) a scope derived from it; a dispatch given the global EmptyScope (which unbinds `//` and so reaches the unsafe library through PackageExpr's fallback) is allowed only on a `value == nil` branch that no caller's argument can take", 1)
+	defer r.End()
+	relPkg := p.Pkg("rel")
+	if relPkg == nil {
+		r.Undecided("anchor", "package rel not loaded", 0)
+		return
+	}
+	var empty *ssa.Global
+	if g, ok := relPkg.Members["EmptyScope"].(*ssa.Global); ok {
+		empty = g
+	}
+	if empty == nil {
+		r.Undecided("anchor", "rel.EmptyScope not found", 0)
+		return
+	}
+	isScope := func(t types.Type) bool { return TypeName(t) == "rel.Scope" }
+	p.CG()
+	for _, fn := range p.RepoFns {
+		if fn.Pkg != relPkg || strings.HasSuffix(p.File(fn.Pos()), "test_helpers.go") {
+			continue
+		}
+		var scopeParam *ssa.Parameter
+		for _, q := range fn.Params {
+			if isScope(q.Type()) {
+				scopeParam = q
+			}
+		}
+		if scopeParam == nil {
+			continue
+		}
+		ord := 0
+		ForEachInstr(fn, func(ins ssa.Instruction) {
+			c, ok := ins.(*ssa.Call)
+			if !ok {
+				return
+			}
+			disp := interpreterDispatch(&c.Call)
+			if !disp {
+				if g := c.Call.StaticCallee(); g != nil && g.Pkg == relPkg && (g.Name() == "Bind" || g.Name() == "Eval") && g.Signature.Recv() != nil {
+					disp = true
+				}
+			}
+			if !disp {
+				return
+			}
+			var sarg ssa.Value
+			for _, a := range c.Call.Args {
+				if isScope(a.Type()) {
+					sarg = a
+				}
+			}
+			if sarg == nil {
+				return
+			}
+			ord++
+			r.Sites++
+			ld, isLoad := sarg.(*ssa.UnOp)
+			if !isLoad || ld.X != ssa.Value(empty) {
+				return // a scope computed from something: threading of derived scopes is not judged here
+			}
+			r.Fn(FnName(fn))
+			key := fmt.Sprintf("dropped-scope@%s~%d", FnName(fn), ord)
+			// is the site on the nil side of a test of an interface parameter?
+			var nilParam *ssa.Parameter
+			for d := c.Block(); d != nil && nilParam == nil; d = d.Idom() {
+				id := d.Idom()
+				if id == nil || len(d.Preds) != 1 {
+					continue
+				}
+				iff, ok := id.Instrs[len(id.Instrs)-1].(*ssa.If)
+				if !ok {
+					continue
+				}
+				bo, ok := iff.Cond.(*ssa.BinOp)
+				if !ok {
+					continue
+				}
+				var q *ssa.Parameter
+				if x, ok := bo.X.(*ssa.Parameter); ok && IsNilConst(bo.Y) {
+					q = x
+				} else if y, ok := bo.Y.(*ssa.Parameter); ok && IsNilConst(bo.X) {
+					q = y
+				}
+				if q == nil {
+					continue
+				}
+				if (bo.Op == token.NEQ && id.Succs[1] == d) || (bo.Op == token.EQL && id.Succs[0] == d) {
+					nilParam = q
+				}
+			}
+			if nilParam == nil {
+				r.Viol(key, fmt.Sprintf("%s evaluates a sub-expression or binds a sub-pattern with the global EmptyScope instead of the scope it was given: the caller's bindings, `//` among them, are dropped, and PackageExpr.Eval then substitutes the full unsafe library inside a sandbox", FnName(fn)), c.Pos())
+				return
+			}
+			idx := -1
+			for i, q := range fn.Params {
+				if q == nilParam {
+					idx = i
+				}
+			}
+			// callers that can pass nil for that parameter
+			var mayNil func(v ssa.Value, d int) bool
+			mayNil = func(v ssa.Value, d int) bool {
+				if d > 6 {
+					return false
+				}
+				if IsNilConst(v) {
+					return true
+				}
+				switch x := v.(type) {
+				case *ssa.Phi:
+					for _, e := range x.Edges {
+						if mayNil(e, d+1) {
+							return true
+						}
+					}
+				case *ssa.Parameter:
+					// the argument is itself a parameter (e.g. of a local closure): look at that function's callers
+					g := x.Parent()
+					gi := -1
+					for i, q := range g.Params {
+						if q == x {
+							gi = i
+						}
+					}
+					if n := p.cg.Nodes[g]; n != nil && gi >= 0 {
+						for _, e := range n.In {
+							if e.Site == nil || !InRepo(e.Caller.Func) {
+								continue
+							}
+							args := e.Site.Common().Args
+							i := gi
+							if e.Site.Common().IsInvoke() {
+								i = gi - 1
+							}
+							if i >= 0 && i < len(args) && mayNil(args[i], d+1) {
+								return true
+							}
+						}
+					}
+				}
+				return false
+			}
+			node := p.cg.Nodes[fn]
+			nCallers := 0
+			var offender ssa.CallInstruction
+			if node != nil {
+				for _, e := range node.In {
+					if e.Site == nil || !InRepo(e.Caller.Func) {
+						continue
+					}
+					nCallers++
+					args := e.Site.Common().Args
+					i := idx
+					if e.Site.Common().IsInvoke() {
+						i = idx - 1
+					}
+					if i >= 0 && i < len(args) && mayNil(args[i], 0) {
+						offender = e.Site
+					}
+				}
+			}
+			if offender != nil {
+				r.Viol(key, fmt.Sprintf("%s binds a sub-pattern with the global EmptyScope on its `%s == nil` branch, and %s passes nil there: defaults nested in that sub-pattern are evaluated with `//` unbound and obtain the full unsafe library inside a sandbox", FnName(fn), nilParam.Name(), FnName(offender.Parent())), offender.Pos())
+				return
+			}
+			r.OK(key, fmt.Sprintf("only on the `%s == nil` branch, which none of the %d module call sites can take", nilParam.Name(), nCallers), c.Pos())
+		})
+	}
+	r.Notes = append(r.Notes, fmt.Sprintf("S18d: %d nested dispatches with a scope argument examined", r.Sites))
+	if r.Sites < 40 {
+		r.Undecided("sites", fmt.Sprintf("only %d nested interpreter dispatches found in package rel (more than 40 confirmed)", r.Sites), 0)
+	}
+}
+
+func init() { register("C18", Rule{"S18d", ruleScopeThreading}) }
